@@ -29,6 +29,10 @@ type Plan struct {
 	Sequential bool `json:"sequential,omitempty"`
 	// Race enables the happens-before detector (worlds built with the yield pass).
 	Race bool `json:"race,omitempty"`
+
+	// Mock seam (C20): results of the generated mock's rand.Intn calls; crypto/rand failure.
+	MockInts       []int `json:"mock_ints,omitempty"`
+	MockCryptoFail bool  `json:"mock_crypto_fail,omitempty"`
 }
 
 // HookPlan scripts the server's error hook.
@@ -104,6 +108,9 @@ type Op struct {
 	RespChunks []int `json:"resp_chunks,omitempty"`
 	DelaysMs   []int `json:"delays_ms,omitempty"`
 	StartMs    int   `json:"start_ms,omitempty"`
+
+	// Notes carry what the drawn case is about (read by the oracle; self-contained replays).
+	Notes []string `json:"notes,omitempty"`
 
 	Faults     []Fault `json:"faults,omitempty"`
 	DeadlineMs int     `json:"deadline_ms,omitempty"` // context deadline of the call
